@@ -4,6 +4,10 @@ claims.json: {"claimed": {ID: {level, text, note}}, "not_applicable": {ID: reaso
 import json, subprocess
 src = json.load(open('/verif/tools/claims.json'))
 props = [json.loads(l)['id'] for l in open('/verif/properties.jsonl')]
+# every guarded commit in /repo (message starts with "verif:"), oldest first; claims.json's list is kept as a cross-check
+hook_commits = subprocess.run(['git','-C','/repo','log','--reverse','--format=%h','--grep=^verif:'], capture_output=True, text=True).stdout.split()
+missing = [c for c in src.get('source_commits', []) if c not in hook_commits]
+assert not missing, f'claims.json names commits that are not verif: commits in /repo: {missing}'
 checks, na = [], []
 for p in props:
     c = src['claimed'].get(p)
@@ -28,7 +32,7 @@ m = {
   "guard": "verif",
   "enable": "build tag `verif`: adds only comment-only contract files zz_verif_contracts.go (//go:build verif); govc loads /repo with -tags=verif",
   "baseline_off_cmd": "for m in . ./sdk/go/hydraidego; do (cd /repo/$m && go test -vet=off -count=1 -timeout 25m ./...); done",
-  "source_commits": src.get('source_commits', []),
+  "source_commits": hook_commits,
   "add_only": True,
  },
  "engines": [{
